@@ -281,7 +281,15 @@ pub fn stale_case(i: u64, seed: u64) -> Scenario {
     if (r >> 56) % 3 == 0 {
         sc.ops.push(Op::Slow { tick: kt - back, from: peer_addr(b), to: peer_addr(a), len_ms: span * 16, extra_ms: extra + 100 });
     }
+    if (r >> 50) % 2 == 1 {
+        // the victim's own last packets: lost on the way to one survivor, held back on the way to the other until
+        // after it has dropped the victim - both time out with the same last frame, the late inputs must be ignored
+        let k = 1 + ((r >> 52) % 4) as u32;
+        sc.ops.push(Op::LinkDown { tick: kt - k, from: peer_addr(victim as usize), to: peer_addr(b) });
+        sc.ops.push(Op::Slow { tick: kt - k, from: peer_addr(victim as usize), to: peer_addr(a), len_ms: (k + 1) * 16, extra_ms: sc.timeout_ms + 200 + ((r >> 54) % 800) as u32 });
+    }
     sc.ops.push(Op::Kill { tick: kt, peer: victim });
+    sc.ops.sort_by_key(|o| o.tick());
     sc.ticks = kt + 1;
     sc.settle = (sc.timeout_ms + extra) / 16 + 200;
     if (r >> 60) % 2 == 0 {
@@ -319,7 +327,7 @@ pub fn run_prop(ctx: &Ctx) -> PropReport {
         "seeded 3-peer sessions in which the observer loses both remote peers at the same instant, one of them a few frames behind the other: both endpoints time out in the same poll with different last frames; the single survivor's final timeline must carry, for EACH dropped player, its real inputs up to its own last frame and default/Disconnected afterwards",
         ctx.tier.pick(600u64, 4000u64), move |i| isolated_case(i, seed), eval_gossip, false));
     rep.part(|| run_enum(ctx, "stale_status",
-        "seeded 3-peer sessions, loss-free, both survivors hold the same amount of the victim's input; 1-4 ticks of packets that one survivor sent to the other 2-11 ticks BEFORE the death are delivered only after both have timed the victim out and exchanged their cut-offs (survivor-to-survivor reordering by more than the disconnect timeout): the stale 'connected, last frame L-k' table in them must not move the cut-off; same agreement oracle, no known finding applies",
+        "seeded 3-peer sessions, loss-free, both survivors hold the same amount of the victim's input; 1-4 ticks of packets that one survivor sent to the other 2-11 ticks BEFORE the death are delivered only after both have timed the victim out and exchanged their cut-offs (survivor-to-survivor reordering by more than the disconnect timeout): the stale 'connected, last frame L-k' table in them must not move the cut-off; in half of the cases the victim's own last 1-4 ticks of packets are lost towards one survivor and reach the other only after it has dropped the victim (late inputs of a dropped player must be ignored); same agreement oracle, no known finding applies",
         ctx.tier.pick(800u64, 5000u64), move |i| stale_case(i, seed), eval_stale, false));
     rep.assumptions = vec!["agreement is an end-state claim: compared after a settle phase longer than the disconnect timeout plus gossip".into()];
     rep
